@@ -8,6 +8,38 @@ IMPL = r'^impl<B, OC, SC, L> Storage<B, OC, SC, L> where'
 IMPLF = r'^impl<B, OC, SC, L> File<B, OC, SC, L> where'
 
 
+IMPLO = r"^impl<'a, OC, SC, L> FileOptions<'a, OC, SC, L> where"
+
+
+def opt_kept(*fields):
+    """frame condition of a FileOptions builder method: every field not named by the setter is handed on unchanged"""
+    eq = {'oc': 'r.oc == self.oc', 'sc': 'r.sc == self.sc', 'log': 'r.log == self.log',
+          'password': 'r.password@ == self.password@', 'parse_options': 'r.parse_options == self.parse_options'}
+    return ' && '.join(eq[f] for f in fields)
+
+
+def open_ens(backend, password, options, oc, sc, log):
+    """what opening `backend` with these settings must answer (File::load_data and FileOptions::load: the same statement)"""
+    return [
+        ('opens_as_specified', '''match header_spec(%(b)s.bytes()) {
+            Err(_) => r is Err,
+            Ok(i) => match xref_spec(%(b)s.bytes(), i as int) {
+                Err(_) => r is Err,
+                Ok((refs, t)) => match decoder_spec(SView { refs: refs, decoder: None, bytes: %(b)s.bytes(), start_offset: i as int }, t, %(pw)s@) {
+                    Err(_) => r is Err,
+                    Ok(dec) => match trailer_typed_spec(Primitive::Dictionary(t), SView { refs: refs, decoder: dec, bytes: %(b)s.bytes(), start_offset: i as int }) {
+                        Err(_) => r is Err,
+                        Ok(tt) => r matches Ok(f) && f.trailer == tt && f.storage.backend == %(b)s && f.storage.start_offset == i
+                                  && f.storage.refs == refs && f.storage.decoder == dec,
+                    } } } }''' % {'b': backend, 'pw': password}),
+        ('no_encrypt_no_decoder', '(r matches Ok(f) && header_spec(%(b)s.bytes()) matches Ok(i) && xref_spec(%(b)s.bytes(), i as int) matches Ok(x) && !has_key(x.1, "Encrypt"@)) ==> r->Ok_0.storage.decoder is None' % {'b': backend}),
+        # C12: the document works with exactly the parse options, caches and log it was opened with (cached and uncached
+        # documents of the same file differ in the caches ONLY)
+        ('settings_handed_over', 'r matches Ok(f) ==> f.storage.options == %s && f.storage.cache == %s && f.storage.stream_cache == %s && f.storage.log == %s'
+         % (options, oc, sc, log)),
+    ]
+
+
 def pub(*fields):
     return [{'rule': 'R2', 'regex': r'(?<![\w.(])(?:pub\(crate\) )?%s:' % f, 'replace': 'pub %s:' % f} for f in fields]
 
@@ -51,21 +83,33 @@ UNIT = {
         # R3: String payload of MissingEntry
         {'rule': 'R3', 'regex': r'field: "[^"]*"\.into\(\),?', 'count': 2, 'replace': ''},
      ]},
-  'File::load_data': {'kind': 'fn', 'file': FILE, 'container': IMPLF, 'name': 'load_data', 'props': ['C06', 'C02', 'C17', 'C01'],
+  'File::load_data': {'kind': 'fn', 'file': FILE, 'container': IMPLF, 'name': 'load_data', 'props': ['C06', 'C02', 'C17', 'C01', 'C12'],
      # the typed trailer (and with it the catalog) is read through the storage that already carries the decoder
-     'ensures': [
-        ('opens_as_specified', '''match header_spec(backend.bytes()) {
-            Err(_) => r is Err,
-            Ok(i) => match xref_spec(backend.bytes(), i as int) {
-                Err(_) => r is Err,
-                Ok((refs, t)) => match decoder_spec(SView { refs: refs, decoder: None, bytes: backend.bytes(), start_offset: i as int }, t, password@) {
-                    Err(_) => r is Err,
-                    Ok(dec) => match trailer_typed_spec(Primitive::Dictionary(t), SView { refs: refs, decoder: dec, bytes: backend.bytes(), start_offset: i as int }) {
-                        Err(_) => r is Err,
-                        Ok(tt) => r matches Ok(f) && f.trailer == tt && f.storage.backend == backend && f.storage.start_offset == i
-                                  && f.storage.refs == refs && f.storage.decoder == dec,
-                    } } } }'''),
-        ('no_encrypt_no_decoder', '(r matches Ok(f) && header_spec(backend.bytes()) matches Ok(i) && xref_spec(backend.bytes(), i as int) matches Ok(x) && !has_key(x.1, "Encrypt"@)) ==> r->Ok_0.storage.decoder is None'),
-     ]},
+     'ensures': open_ens('backend', 'password', 'options', 'object_cache', 'stream_cache', 'log')},
+
+  # ---- FileOptions: the builder every document is opened through (C12: "a document opened with object and stream caches"
+  # vs "the same file opened without caches" -- the two differ in the caches only; C06: the password reaches the handler).
+  # Each setter changes exactly its field and hands the others on (frame condition).
+  'struct FileOptions': {'kind': 'decl', 'file': FILE, 'header': r"^pub struct FileOptions<'a, OC, SC, L>$",
+     'rewrites': pub('oc', 'sc', 'log', 'password', 'parse_options')},
+  'FileOptions::uncached': {'kind': 'fn', 'file': FILE, 'container': r"^impl FileOptions<'static, NoCache, NoCache, NoLog>$", 'name': 'uncached', 'props': ['C12'],
+     'ensures': [('defaults', 'r.password@ == Seq::<u8>::empty() && r.parse_options == strict_options()')],
+     'rewrites': [{'rule': 'R7', 'regex': r'b""', 'replace': 'empty_password()', 'count': '*'}]},
+  'FileOptions::cached': {'kind': 'fn', 'file': FILE, 'container': r"^impl FileOptions<'static, ObjectCache, StreamCache, NoLog>$", 'name': 'cached', 'props': ['C12'],
+     # same defaults as `uncached()`; and the caches start EMPTY (units/cachetransp (a): empty caches are coherent)
+     'ensures': [('defaults', 'r.password@ == Seq::<u8>::empty() && r.parse_options == strict_options()'),
+                 ('caches_start_empty', 'r.oc.holds_nothing() && r.sc.holds_nothing()')],
+     'rewrites': [{'rule': 'R7', 'regex': r'b""', 'replace': 'empty_password()', 'count': '*'}]},
+  'FileOptions::password': {'kind': 'fn', 'file': FILE, 'container': IMPLO, 'name': 'password', 'props': ['C12', 'C06'],
+     'ensures': [('sets_password', 'r.password@ == password@'), ('others_kept', opt_kept('oc', 'sc', 'log', 'parse_options'))]},
+  'FileOptions::cache': {'kind': 'fn', 'file': FILE, 'container': IMPLO, 'name': 'cache', 'props': ['C12', 'C06'],
+     'ensures': [('sets_caches', 'r.oc == oc && r.sc == sc'), ('others_kept', opt_kept('log', 'password', 'parse_options'))]},
+  'FileOptions::log': {'kind': 'fn', 'file': FILE, 'container': IMPLO, 'name': 'log', 'props': ['C12', 'C06'],
+     'ensures': [('sets_log', 'r.log == log'), ('others_kept', opt_kept('oc', 'sc', 'password', 'parse_options'))]},
+  'FileOptions::parse_options': {'kind': 'fn', 'file': FILE, 'container': IMPLO, 'name': 'parse_options', 'props': ['C12', 'C06'],
+     'ensures': [('sets_parse_options', 'r.parse_options == parse_options'), ('others_kept', opt_kept('oc', 'sc', 'log', 'password'))]},
+  'FileOptions::load': {'kind': 'fn', 'file': FILE, 'container': IMPLO, 'name': 'load', 'props': ['C12', 'C06'],
+     # every setting goes to File::load_data as it is
+     'ensures': open_ens('backend', 'self.password', 'self.parse_options', 'self.oc', 'self.sc', 'self.log')},
  },
 }
